@@ -19,7 +19,7 @@ import (
 type CB struct {
 	G       uint64        // global sequence number
 	T       time.Duration // simulated time since the start of the run
-	Kind    string // conn.open, conn.close, session.open, session.close, describe, announce, setup, play, record, pause, getparam, setparam, request, response, lost, decode_error, write_error, rtp, rtcp
+	Kind    string        // conn.open, conn.close, session.open, session.close, describe, announce, setup, play, record, pause, getparam, setparam, request, response, lost, decode_error, write_error, rtp, rtcp
 	Conn    *gortsplib.ServerConn
 	Session *gortsplib.ServerSession
 	Path    string
